@@ -68,7 +68,7 @@ pub fn run_case<V: VringT<GM> + Clone + Send + Sync + 'static>(case: &Value, tra
         }
     }
     trace.emit(json!({"ev": "reset", "id": case["id"], "nq": nq, "maxq": cfg.maxq, "masks": cfg.masks, "features": bits(cfg.features),
-        "pf": bits(cfg.pf), "vring": case["vring"].as_str().unwrap_or("rwlock"), "adapter": adapter, "pool": if case["pool"].is_null() { json!([]) } else { case["pool"].clone() }, "exit": cfg.exit}));
+        "pf": bits(cfg.pf), "vring": case["vring"].as_str().unwrap_or("rwlock"), "adapter": adapter, "level": case["level"].as_str().unwrap_or("none"), "pool": if case["pool"].is_null() { json!([]) } else { case["pool"].clone() }, "exit": cfg.exit}));
     let mut log_guard: Option<(File, u64, u64, u64)> = None; // file, mmap_off, mmap_size, total
     if let Some(st) = case.get("stress") {
         // C15 race clause: n threads mark distinct pages whose bits share one log byte
@@ -130,6 +130,9 @@ pub fn run_case<V: VringT<GM> + Clone + Send + Sync + 'static>(case: &Value, tra
             continue;
         }
         closed = false;
+        if trace.autoflush {
+            trace.emit(json!({"ev": "begin", "op": op, "hk": step["hk"].as_str().unwrap_or(op), "why": step["why"].as_str().unwrap_or("")}));
+        }
         let q = step["q"].as_u64().unwrap_or(0) as usize;
         rig.log.take();
         let mut out = json!({});
@@ -417,7 +420,7 @@ pub fn run_case<V: VringT<GM> + Clone + Send + Sync + 'static>(case: &Value, tra
                 let r = (rig.handlers_reg)(t, e.as_raw_fd(), id);
                 status = if r.is_ok() { "ok".into() } else { "err".into() };
                 if r.is_ok() {
-                    rig.tb.listeners.lock().unwrap().push((t, e.clone()));
+                    rig.tb.listeners.lock().unwrap().push((t, id, e.clone()));
                     let _ = e.write(1);
                     listeners.push(e);
                 }
@@ -426,7 +429,10 @@ pub fn run_case<V: VringT<GM> + Clone + Send + Sync + 'static>(case: &Value, tra
                 let code = step["c"].as_u64().unwrap() as u32;
                 let body = unhex(step["body"].as_str().unwrap_or(""));
                 let nf = step["nfds"].as_u64().unwrap_or(0);
-                let files: Vec<File> = (0..nf).map(|_| memfd("raw", 0x1000)).collect();
+                let fdsize = step["fdsize"].as_u64().unwrap_or(0x1000);
+                let files: Vec<File> = (0..nf)
+                    .map(|_| if step["fdkind"].as_str() == Some("eventfd") { dup_file_of(&new_eventfd()) } else { memfd("raw", fdsize) })
+                    .collect();
                 let fds: Vec<i32> = files.iter().map(|f| f.as_raw_fd()).collect();
                 let r = rig.peer.request(code, &body, &fds, step["has_reply"].as_bool().unwrap_or(false));
                 status = r.status;
@@ -445,7 +451,7 @@ pub fn run_case<V: VringT<GM> + Clone + Send + Sync + 'static>(case: &Value, tra
         let dispatches: Vec<Value> = evs.iter().filter(|e| e["ev"] == "dispatch" && e["event"] != bid).cloned().collect();
         let cbs: Vec<Value> = evs.iter().filter(|e| e["ev"] == "cb").cloned().collect();
         let mut e = json!({"ev": "step", "op": op, "q": q, "letter": step, "status": status, "out": out,
-            "dispatches": dispatches, "ndispatch": dispatches.len(), "cbs": cbs, "workers_ok": workers_ok,
+            "dispatches": dispatches, "ndispatch": dispatches.len(), "cbs": cbs, "workers_ok": workers_ok, "panics": take_panics(),
             "updates": *rig.tb.updates.lock().unwrap()});
         // ring snapshot through the backend's own view: sampled in the barrier dispatch of each thread
         let mut last_per_thread: std::collections::BTreeMap<u64, &Value> = std::collections::BTreeMap::new();
